@@ -6,6 +6,8 @@ import (
 	"errors"
 	"strconv"
 	"strings"
+	"sync"
+	"time"
 
 	"github.com/markusressel/fan2go/internal/configuration"
 	"github.com/markusressel/fan2go/internal/curves"
@@ -19,6 +21,20 @@ type mockSensor struct {
 	avg    float64
 	value  float64
 	valErr error
+	// gate: the gateAt-th GetMovingAvg call after arming blocks until released (forces one evaluation of a curve to
+	// be suspended in the middle of its member loop while another one runs: op cv.evalpair)
+	gmu     sync.Mutex
+	gateAt  int
+	gateCnt int
+	blocked chan struct{}
+	release chan struct{}
+}
+
+func (s *mockSensor) arm(n int) {
+	s.gmu.Lock()
+	s.gateAt, s.gateCnt = n, 0
+	s.blocked, s.release = make(chan struct{}), make(chan struct{})
+	s.gmu.Unlock()
 }
 
 func (s *mockSensor) GetId() string { return s.id }
@@ -26,7 +42,24 @@ func (s *mockSensor) GetConfig() configuration.SensorConfig {
 	return configuration.SensorConfig{ID: s.id}
 }
 func (s *mockSensor) GetValue() (float64, error) { return s.value, s.valErr }
-func (s *mockSensor) GetMovingAvg() float64      { return s.avg }
+func (s *mockSensor) GetMovingAvg() float64 {
+	s.gmu.Lock()
+	hit := false
+	if s.gateAt > 0 {
+		s.gateCnt++
+		if s.gateCnt == s.gateAt {
+			hit = true
+			s.gateAt = 0
+		}
+	}
+	bl, rel := s.blocked, s.release
+	s.gmu.Unlock()
+	if hit {
+		close(bl)
+		<-rel
+	}
+	return s.avg
+}
 func (s *mockSensor) SetMovingAvg(avg float64)   { s.avg = avg }
 
 var cvCounter = 0
@@ -79,6 +112,77 @@ func init() {
 			}
 			curves.RegisterSpeedCurve(c)
 			return "ok"
+		case "cv.evalpair":
+			// two evaluations of the SAME curve object, the first one suspended inside a sensor read of one of its
+			// (transitive) members while the second runs to completion: what two fan controllers sharing a curve do
+			verifhook.SetClock(int64(a.int("now", 0)))
+			c, ok := curves.GetSpeedCurve(cvId(a.str("id", "c")))
+			if !ok {
+				return "panic:nil"
+			}
+			sn, ok := sensors.GetSensor(cvId(a.str("gate", "s")))
+			ms, isMock := sn.(*mockSensor)
+			if !ok || !isMock {
+				return "panic:nil"
+			}
+			ms.arm(a.int("n", 1))
+			run := func() string {
+				res := ""
+				func() {
+					defer func() {
+						if r := recover(); r != nil {
+							res = "panic:" + panicClass(r)
+						}
+					}()
+					v, err := c.Evaluate()
+					if err != nil {
+						res = "err"
+					} else {
+						res = "i" + strconv.Itoa(v)
+					}
+				}()
+				return res
+			}
+			aDone := make(chan string, 1)
+			go func() { aDone <- run() }()
+			ra, rb := "", ""
+			select {
+			case <-ms.blocked: // A is suspended in the middle
+			case ra = <-aDone: // A never reached the gate
+			case <-time.After(5 * time.Second):
+			}
+			ms.gmu.Lock()
+			ms.gateAt = 0 // B never blocks
+			ms.gmu.Unlock()
+			bDone := make(chan string, 1)
+			go func() { bDone <- run() }()
+			select {
+			case rb = <-bDone:
+			case <-time.After(2 * time.Second): // B waits for something A holds: let A go on
+			}
+			ms.gmu.Lock()
+			ms.gateAt = 0
+			ms.gmu.Unlock()
+			select {
+			case <-ms.release:
+			default:
+				close(ms.release)
+			}
+			if ra == "" {
+				select {
+				case ra = <-aDone:
+				case <-time.After(5 * time.Second):
+					ra = "hang"
+				}
+			}
+			if rb == "" {
+				select {
+				case rb = <-bDone:
+				case <-time.After(5 * time.Second):
+					rb = "hang"
+				}
+			}
+			return "a=" + ra + " b=" + rb
 		case "cv.eval":
 			verifhook.SetClock(int64(a.int("now", 0)))
 			c, ok := curves.GetSpeedCurve(cvId(a.str("id", "c")))
